@@ -25,6 +25,7 @@ def jobs(tier):
         for s in range(ns):
             js.append((n, b['depth'], b['d_all'], b['d_moving'], s, ns))
     js += leafspell.jobs()
+    js.append(('lazy',))
     return js
 
 
@@ -124,7 +125,56 @@ def run_leaf_job(job):
     return r
 
 
+LAZY_BLOCKS = {'para': (['g'], 'para'), 'atx': (['# g'], 'atx'), 'fence': (['```', 'c', '```'], 'fence'),
+               'table': (['| a | b |', '|---|---|', '| c | d |'], 'table'), 'hr': (['***'], 'hr'), 'indented': (['    c'], 'indented')}
+LAZY_LINES = [['==='], ['='], ['  =='], ['b'], ['===', '='], ['b', '==='], ['==='] * 3]
+
+
+def lazy_documents():
+    """a paragraph inside a block quote continued by lazy lines (no '>' marker) - among them lines that look like setext
+    underlines, which must stay paragraph text - followed by further blocks inside the same container. -> (markdown, expectation)"""
+    for lazy in LAZY_LINES:
+        n = len(lazy)
+        for bname, (blines, bkind) in LAZY_BLOCKS.items():
+            # quote
+            yield ('\n'.join(['> a'] + lazy + ['>'] + ['> ' + l for l in blines]) + '\n',
+                   [('quote', 1), ('para', 1), (bkind, n + 3)])
+            # quote in quote
+            yield ('\n'.join(['> > a'] + lazy + ['> >'] + ['> > ' + l for l in blines]) + '\n',
+                   [('quote', 1), ('quote', 1), ('para', 1), (bkind, n + 3)])
+            # quote, later content after a second paragraph
+            yield ('\n'.join(['> a'] + lazy + ['>', '> h'] + lazy + ['>'] + ['> ' + l for l in blines]) + '\n',
+                   [('quote', 1), ('para', 1), ('para', n + 3), (bkind, 2 * n + 5)])
+            # quote inside a list item
+            yield ('\n'.join(['- > a'] + lazy + ['  >'] + ['  > ' + l for l in blines]) + '\n',
+                   [('list', 1), ('item', 1), ('quote', 1), ('para', 1), (bkind, n + 3)])
+        # two list items inside a quote, the first one continued lazily
+        yield ('\n'.join(['> - a'] + lazy + ['> - g']) + '\n',
+               [('quote', 1), ('list', 1), ('item', 1), ('para', 1), ('item', n + 2), ('para', n + 2)])
+        # block after the quote
+        yield ('\n'.join(['> a'] + lazy + ['', 'g']) + '\n', [('quote', 1), ('para', 1), ('para', n + 3)])
+
+
+def run_lazy_job():
+    r = core.Result()
+    for md, exp in lazy_documents():
+        r.states += 1
+        r.transitions += 1
+        res = check_lines(md, exp)
+        if isinstance(res, tuple):
+            r.skip(res[1])
+            continue
+        r.validated += 1
+        if res:
+            r.fail(dict(markdown=md, lines=exp, family='lazy'), res['sig'], res['detail'])
+        r.outcome('lazy')
+    r.sample(dict(space='lazy continuation lines inside quotes', lines=LAZY_LINES), 1)
+    return r
+
+
 def run_job(job):
+    if job[0] == 'lazy':
+        return run_lazy_job()
     if job[0] == 'leafspell':
         return run_leaf_job(job)
     n, depth, d_all, d_moving, shard, nshard = job
